@@ -434,9 +434,34 @@ Proof.
   exists dx, dy, dz. split; [|exact W]. unfold vec_text. cbn [app] in E. rewrite app_nil_r in E. exact E.
 Qed.
 
+(** with the documented bracket sets accepted, every documented bracket is an [opt_bracket] of the theorem *)
+Lemma documented_open pc c : accepts_documented_brackets pc = true -> In c [40; 123; 91; 60] -> opt_bracket (opens pc) [c].
+Proof.
+  unfold accepts_documented_brackets. intros H Hc. apply andb_prop in H. destruct H as [H _].
+  rewrite forallb_forall in H. right. exists c. split; [reflexivity|]. apply mem_in, H, Hc.
+Qed.
+Lemma documented_close pc c : accepts_documented_brackets pc = true -> In c [41; 125; 93; 62] -> opt_bracket (closes pc) [c].
+Proof.
+  unfold accepts_documented_brackets. intros H Hc. apply andb_prop in H. destruct H as [_ H].
+  rewrite forallb_forall in H. right. exists c. split; [reflexivity|]. apply mem_in, H, Hc.
+Qed.
+
+(** the documented forms "(x y z)", "{x y z}", "[x y z]", "<x y z>" (mixed pairs too) of str(vec) *)
+Corollary parse_bracketed_vec : forall pc c x y z o cl, pcfg_ok pc = true -> accepts_documented_brackets pc = true ->
+  In o [40; 123; 91; 60] -> In cl [41; 125; 93; 62] ->
+  exists dx dy dz, parse_vec pc ([o] ++ vec_text c x y z ++ [cl]) = PFields (Some dx) (Some dy) (Some dz) /\
+    within_5e7 dx x /\ within_5e7 dy y /\ within_5e7 dz z.
+Proof.
+  intros pc c x y z o cl OK D Ho Hcl.
+  destruct (parse_format_vec pc c x y z [] [o] [] [32] [32] [] [cl] [] OK) as (dx & dy & dz & E & W);
+    try reflexivity; try discriminate; [apply documented_open; assumption|apply documented_close; assumption|].
+  exists dx, dy, dz. split; [|exact W]. rewrite <- E. f_equal. unfold vec_text. cbn [app].
+  f_equal. rewrite <- !app_assoc. cbn [app]. rewrite <- !app_assoc. cbn [app]. reflexivity.
+Qed.
+
 (** the source's configuration satisfies the premise; the statement is not vacuous *)
-Example pcfg_source_ok : pcfg_ok cfg_source_brackets = true.
-Proof. reflexivity. Qed.
+Example pcfg_source_ok : pcfg_ok cfg_source_brackets = true /\ accepts_documented_brackets cfg_source_brackets = true.
+Proof. split; reflexivity. Qed.
 
 Example parse_example :
   parse_vec cfg_source_brackets [32; 40; 45; 48; 32; 49; 46; 53; 32; 32; 55; 50; 53; 46; 53; 41; 10]
